@@ -52,7 +52,7 @@ ASSUMPTIONS = [
     "a list warns once in its life ('once per object'): a second edit below an already warned list re-arms nothing",
 ]
 BOUND = {
-    "quick": "root of 2 items (ragged keys, one nested list value); families of <= 4 lists; all event sequences "
+    "quick": "root of 2 items (ragged keys, one nested mutable object value); families of <= 4 lists; all event sequences "
              "to depth 4; per member 9 simple derives + sample(1|2) x every RNG answer + semi/anti join x every "
              "other member and a literal as right-hand list; 9 edits + inner/left join x the same right-hand "
              "lists; deepcopy; 2 kinds of use",
@@ -69,13 +69,27 @@ DEPTH = {"quick": 4, "thorough": 6}
 L0 = {"quick": 2, "thorough": 3}
 NCHUNKS = 64
 
-ROOT = [{"k": 1, "a": 1, "n": [0]}, {"k": 2, "a": 2}]
-LIT = [{"k": 1, "b": 7}, {"k": 3, "b": 8}]
+class Box:
+    """A nested MUTABLE value. attd.AttributeDict rebuilds lists, tuples, sets and dicts whenever a value is
+    stored, so a nested list can never be shared between two item dicts; an arbitrary object can, and that is
+    what tells a deep copy from a per-item shallow one."""
+
+    __slots__ = ("v",)
+
+    def __init__(self, v):
+        self.v = list(v)
+
+    def __repr__(self):
+        return f"Box({self.v})"
+
+
+ROOT = "[{'k': 1, 'a': 1, 'n': Box([0])}, {'k': 2, 'a': 2}]"
+LIT = "[{'k': 1, 'b': 7}, {'k': 3, 'b': 8}]"
 
 
 def make_root():
     """Fresh objects every time (a literal, so nothing is shared between replays)."""
-    return di.ListOfDicts([{"k": 1, "a": 1, "n": [0]}, {"k": 2, "a": 2}])
+    return di.ListOfDicts([{"k": 1, "a": 1, "n": Box([0])}, {"k": 2, "a": 2}])
 
 
 def make_lit():
@@ -114,7 +128,7 @@ def _sample(x, r, ev):
 
 
 def _nested(it):
-    it["n"].append(1)
+    it["n"].v.append(1)          # in-place mutation of the nested object
     return it["n"]
 
 
@@ -136,7 +150,7 @@ CALL = {
     "modify": lambda x, r, ev: x.modify(a=lambda it: 5),
     "modify_if": lambda x, r, ev: x.modify_if(lambda it: it["k"] == 1, a=lambda it: 6),
     "modify_if_nested": lambda x, r, ev: x.modify_if(
-        lambda it: isinstance(it.get("n"), list) and len(it["n"]) < 2, n=_nested),
+        lambda it: isinstance(it.get("n"), Box) and len(it["n"].v) < 2, n=_nested),
     "rename": lambda x, r, ev: x.rename(c="a"),
     "select": lambda x, r, ev: x.select("k", "a"),
     "unselect": lambda x, r, ev: x.unselect("a"),
@@ -159,6 +173,40 @@ for _op in CALL:
     METHOD.setdefault(_op, _op)
 assert all(METHOD[o] in ref.NON_MODIFYING for o in SIMPLE_D + ("sample", "semi_join", "anti_join"))
 assert all(METHOD[o] in ref.IN_PLACE for o in SIMPLE_E + ("inner_join", "left_join"))
+
+
+SOURCE = {
+    "filter_fn": "{x}.filter(lambda it: it['k'] == 1)", "filter_kv": "{x}.filter(k=2)", "sort": "{x}.sort(k=-1)",
+    "unique": "{x}.unique('k')", "head": "{x}.head(1)", "tail": "{x}.tail(1)", "slice": "{x}[1:]",
+    "copy": "{x}.copy()", "reverse": "{x}.reverse()", "sample": "{x}.sample({n})  # random.sample answers {answer}",
+    "semi_join": "{x}.semi_join({r}, 'k')", "anti_join": "{x}.anti_join({r}, 'k')",
+    "modify": "{x}.modify(a=lambda it: 5)", "modify_if": "{x}.modify_if(lambda it: it['k'] == 1, a=lambda it: 6)",
+    "modify_if_nested": "{x}.modify_if(lambda it: isinstance(it.get('n'), Box) and len(it['n'].v) < 2, "
+                        "n=lambda it: (it['n'].v.append(1), it['n'])[1])",
+    "rename": "{x}.rename(c='a')", "select": "{x}.select('k', 'a')", "unselect": "{x}.unselect('a')",
+    "fill": "{x}.fill_missing_keys()", "fill_kv": "{x}.fill_missing_keys(a=0)",
+    "inner_join": "{x}.inner_join({r}, 'k')", "left_join": "{x}.left_join({r}, 'k')",
+    "deepcopy": "{x}.deepcopy()", "pluck": "{x}.pluck('k')", "to_string": "{x}.to_string()",
+}
+
+
+def recipe(hist, ev=None):
+    """The history as printable Python (what a replay file's event list means)."""
+    lines = [f"L0 = ListOfDicts({ROOT})"]
+    n = 1
+    for e in list(hist) + ([ev] if ev is not None else []):
+        op = op_of(e)
+        r = None
+        if op in JOINS:
+            r = f"ListOfDicts({LIT})" if e[3] == "LIT" else f"L{e[3]}"
+        call = SOURCE[op].format(x=f"L{e[1]}", r=r, n=e[3] if op == "sample" else None,
+                                 answer=list(e[4]) if op == "sample" else None)
+        if e[0] == "U":
+            lines.append(call)
+        else:
+            lines.append(f"L{n} = {call}")
+            n += 1
+    return lines
 
 
 def op_of(ev):
@@ -203,6 +251,8 @@ class capturing:
 # the world: real objects + model in lock step
 
 def _cv(v):
+    if isinstance(v, Box):
+        return ("Box",) + tuple(v.v)
     if isinstance(v, list):
         return ("L",) + tuple(_cv(x) for x in v)
     if isinstance(v, dict):
@@ -406,8 +456,11 @@ def events_for(model, kmax):
 # ---------------------------------------------------------------------------
 # exploration
 
-def case_of(hist, ev):
-    return {"history": [list(e) for e in hist], "event": list(ev)}
+def case_of(hist, ev, with_recipe=False):
+    case = {"history": [list(e) for e in hist], "event": list(ev)}
+    if with_recipe:
+        case["recipe"] = recipe(hist, ev)
+    return case
 
 
 def judge(hist, ev, viols, rec):
@@ -417,8 +470,8 @@ def judge(hist, ev, viols, rec):
     if v2 != viols:
         raise RuntimeError(f"nondeterministic observation for {case_of(hist, ev)}: {viols} vs {v2}")
     for clause, detail in viols:
-        rec.violation(METHOD[op_of(ev)], clause, case_of(hist, ev),
-                      f"after history {[list(e) for e in hist]}: event {list(ev)}: {detail}")
+        rec.violation(METHOD[op_of(ev)], clause, case_of(hist, ev, with_recipe=True),
+                      f"{detail} || recipe: " + "; ".join(recipe(hist, ev)))
 
 
 def expand(hist, kmax, rec):
